@@ -123,7 +123,13 @@ def keyOutputLen (o : Attrs) : Nat :=
     (match getA o 0x180 with
      | some (.bytes v _) => if v == [0x06,0x08,0x2A,0x86,0x48,0xCE,0x3D,0x03,0x01,0x07] then 64
                             else if v == [0x06,0x05,0x2B,0x81,0x04,0x00,0x22] then 96
-                            else if v == [0x06,0x05,0x2B,0x81,0x04,0x00,0x23] then 132 else 0
+                            else if v == [0x06,0x05,0x2B,0x81,0x04,0x00,0x23] then 132
+                            -- twice the byte length of the group ORDER (not of the field): secp224r1, secp160r1 (161-bit order), secp224k1 (225-bit order), secp256k1, secp192k1
+                            else if v == [0x06,0x05,0x2B,0x81,0x04,0x00,0x21] then 56
+                            else if v == [0x06,0x05,0x2B,0x81,0x04,0x00,0x08] then 42
+                            else if v == [0x06,0x05,0x2B,0x81,0x04,0x00,0x20] then 58
+                            else if v == [0x06,0x05,0x2B,0x81,0x04,0x00,0x0A] then 64
+                            else if v == [0x06,0x05,0x2B,0x81,0x04,0x00,0x1F] then 48 else 0
      | _ => 0)
   else if kt == CKK.EC_EDWARDS then
     (match getA o 0x180 with
